@@ -311,6 +311,21 @@ pub const TEXTS: &[&str] = &[
     "Z9_",
     "ab",
     "aa",
+    // identifiers that numeric parsers also accept (nom's `double` takes nan / inf / infinity)
+    "inf",
+    "nan",
+    "NaN",
+    "infinity",
+    "Infinity",
+    "INF",
+    "info",
+    "nano",
+    "infinite",
+    "e5",
+    "E1",
+    "x1e5",
+    "null",
+    "extant",
 ];
 
 pub fn boundary_ints() -> Vec<i128> {
